@@ -1,15 +1,29 @@
 """C09: configuration parsing is total (libFuzzer), strict and layout-independent (Hypothesis)."""
+import math
 import os
-from lib import fuzzrun
-from lib.core import BUILD
+import re
+from hypothesis import strategies as st
+from lib import fuzzrun, gen, cvz, zoo
+from lib.core import BUILD, Outcome, run_case, pct
+import c01_forces
 
 ID = "C09"
 LEVEL = "exploration"
 RULE = ("(totality) libFuzzer (ASan+UBSan, fork=16) mutates the repository's 89 test configurations with a keyword dictionary "
         "extracted from the sources; each input is parsed by a fresh module, stepped 3 times, outputs written, then the "
-        "module is reset and a canonical configuration must still give the right value (oracle inside the target); "
-        "evaluations = executions, distinct_nontrivial = inputs kept in the corpus because they reached new coverage.")
-ASSUMPTIONS = ["fuzzing samples the space of byte strings; hangs are reported only if an input never completes in 90 s"]
+        "module is reset and a canonical configuration must still give the right value (oracle inside the target).  "
+        "(strict) Hypothesis generates valid configurations (the C01 generator: 1-2 variables of 1-3 components with atom-group "
+        "options, 1-2 biases; and the bias zoo) and applies ONE keyword-level mutation: a keyword misspelled into a name that "
+        "exists nowhere, a keyword that is valid only in another kind of block, a deleted/added brace, a numeric or string "
+        "keyword left without value, a numeric token replaced by or fused with text ('abc', '1.5x', '0x10'); oracle: the "
+        "configuration must be rejected (non-zero return or error flag).  (layout) the same configurations rewritten in the "
+        "documented free aspects (keyword case, spaces/tabs, blank lines, full-line and trailing comments, CRLF, one-line blocks "
+        "split over lines and vice versa, boolean spellings on/yes/true, off/no/false, bare keyword); oracle: metamorphic - "
+        "the return code and the full trace of 2 steps are bit-identical to the original.  evaluations = executions + cases; "
+        "non-trivial: the mutation hit a keyword inside a nested block (strict); >=3 kinds of rewrite applied and a non-zero "
+        "force (layout).")
+ASSUMPTIONS = ["fuzzing samples the space of byte strings; hangs are reported only if an input never completes in 90 s",
+               "letter case is free for keywords only (values such as on/off and names are case-sensitive, as observed and documented)"]
 BUILD_TARGETS = ["rel", "asan"]
 SECONDS = {"quick": 60, "thorough": 900}
 
@@ -20,4 +34,367 @@ def runner_totality(tier, seed):
                             dict_path=os.path.join(BUILD, "fuzz", "config.dict"))
 
 
-PARTS = {"totality": {"runner": runner_totality, "replay": fuzzrun.replay_fuzz}}
+# ------------------------------------------------------------------------------------------------------------
+# valid configurations
+
+@st.composite
+def base_spec(draw, tier):
+    if draw(st.integers(0, 3)) == 0:
+        vs = draw(zoo.variables(2))
+        nb = draw(st.sampled_from([1, 2]))
+        bs = [draw(zoo.bias(vs, i, kinds=[k for k in zoo.BIAS_KINDS if k not in ("abf",)])) for i in range(nb)]
+        if any(v["ext"] for v in vs):
+            bs = [b for b in bs if b["kind"] != "alb"] or [draw(zoo.bias(vs, 0, kinds=["harmonic", "meta"]))]
+        return {"zoo": {"vars": vs, "biases": bs}, "xs": [cvz_mid(v) for v in vs]}
+    s = draw(c01_forces.spec_restraints(tier))
+    s["shifts"] = None
+    return {"rich": s}
+
+
+def cvz_mid(v):
+    g = v["grid"]
+    return g["lower"] + 0.37 * g["n"] * g["width"]
+
+
+def base_config(sp, ctx):
+    """(header lines, configuration text, position lines for 2 steps) or None"""
+    if "zoo" in sp:
+        z = sp["zoo"]
+        nat = len(z["vars"]) + 1
+        head = cvz.header(nat, 0, temperature=300.0) + ["gauss 0.3"]
+        p1 = cvz.pos_line_z(sp["xs"], nat)
+        p2 = cvz.pos_line_z([x + 0.11 for x in sp["xs"]], nat)
+        return head, zoo.render(z), [p1, p2]
+    s = sp["rich"]
+    sysd = s["sys"]
+    head = gen.case_header(sysd)
+    pos0 = [list(p) for p in sysd["pos"]]
+    cfg1 = c01_forces.build_config(s, None, ctx["workdir"], with_biases=False)
+    r1 = run_case("\n".join(head + [gen.config_block(cfg1), gen.pos_line(pos0), "step"]) + "\n")
+    if r1.crashed or r1.of("config")[0]["rc"] != 0 or not r1.of("step") or r1.of("step")[0]["errbits"]:
+        return None
+    values = c01_forces.values_of(r1.of("step")[0])
+    if any(not math.isfinite(x) for v in values for x in v):
+        return None
+    cfg = c01_forces.build_config(s, values, ctx["workdir"])
+    pos1 = [[c + 0.03 * ((a + k) % 3 - 1) for k, c in enumerate(p)] for a, p in enumerate(pos0)]
+    return head, cfg, [gen.pos_line(pos0), gen.pos_line(pos1)]
+
+
+def run_cfg(head, cfg, poslines, raw=False):
+    L = list(head)
+    L.append("configraw " + pct(cfg) if raw else gen.config_block(cfg, "ENDCFG9"))
+    for p in poslines:
+        L += [p, "step"]
+    case = "\n".join(L) + "\n"
+    return case, run_case(case)
+
+
+# ------------------------------------------------------------------------------------------------------------
+# line model of the rendered configurations
+
+NUM = r"[-+]?(?:\d+\.?\d*|\.\d+)(?:[eE][-+]?\d+)?"
+RX_OPEN = re.compile(r"^(\s*)([A-Za-z_]\w*)\s*\{\s*$")
+RX_ONELINE = re.compile(r"^(\s*)([A-Za-z_]\w*)\s*\{(.*)\}\s*$")
+RX_KV = re.compile(r"^(\s*)([A-Za-z_]\w*)(\s+)(\S.*?)\s*$")
+RX_BARE = re.compile(r"^(\s*)([A-Za-z_]\w*)\s*$")
+BOOL_T, BOOL_F = ("on", "yes", "true"), ("off", "no", "false")
+
+
+def classify(lines):
+    """per line: (kind, indent, keyword, value, depth, stack of enclosing block keywords)"""
+    out = []
+    stack = []
+    for ln in lines:
+        if not ln.strip():
+            out.append(("blank", "", None, None, len(stack), tuple(stack)))
+            continue
+        if ln.strip() == "}":
+            if stack:
+                stack.pop()
+            out.append(("close", ln[:len(ln) - len(ln.lstrip())], None, None, len(stack), tuple(stack)))
+            continue
+        m = RX_OPEN.match(ln)
+        if m:
+            out.append(("open", m.group(1), m.group(2), None, len(stack), tuple(stack)))
+            stack.append(m.group(2))
+            continue
+        m = RX_ONELINE.match(ln)
+        if m and "{" not in m.group(3) and "}" not in m.group(3):
+            out.append(("oneline", m.group(1), m.group(2), m.group(3).strip(), len(stack), tuple(stack)))
+            continue
+        m = RX_KV.match(ln)
+        if m and "{" not in ln and "}" not in ln:
+            out.append(("kv", m.group(1), m.group(2), m.group(4), len(stack), tuple(stack)))
+            continue
+        m = RX_BARE.match(ln)
+        if m:
+            out.append(("bare", m.group(1), m.group(2), None, len(stack), tuple(stack)))
+            continue
+        out.append(("other", "", None, None, len(stack), tuple(stack)))
+    return out
+
+
+BIAS_KW = ("harmonic", "harmonicwalls", "linear", "histogramrestraint", "abmd", "metadynamics", "abf", "opes_metad", "alb", "histogram")
+WRONG_CONTEXT = {
+    # keywords that exist, but not in this kind of block
+    "colvar": ["forceConstant 1.0", "hillWeight 0.1", "centers 1.0", "atomNumbers 1", "newHillFrequency 10", "fullSamples 5"],
+    "bias": ["atomNumbers 1 2", "componentCoeff 1.0", "extendedLagrangian on", "centerToReference on", "cutoff 3.0", "oneSiteTotalForce on"],
+    "group": ["forceConstant 1.0", "width 0.5", "hillWeight 0.1", "lowerBoundary 0.0", "componentExp 2"],
+    "component": ["forceConstant 1.0", "hillWeight 0.1", "lowerBoundary 0.0", "extendedLagrangian on", "centers 1.0"],
+    "top": ["width 0.5", "forceConstant 1.0", "atomNumbers 1", "hillWeight 0.1"],
+}
+
+
+def block_kind(stack):
+    if not stack:
+        return "top"
+    s0 = stack[0].lower()
+    if len(stack) == 1:
+        return "colvar" if s0 == "colvar" else ("bias" if s0 in BIAS_KW else None)
+    if s0 == "colvar" and len(stack) == 2:
+        return "component"
+    if s0 == "colvar" and len(stack) == 3 and stack[-1].lower() not in ("fittinggroup",):
+        return "group"
+    return None
+
+
+@st.composite
+def spec_strict(draw, tier):
+    sp = draw(base_spec(tier))
+    sp["mut"] = draw(st.sampled_from(["misspell", "misspell", "context", "brace_del", "brace_add", "brace_extra", "novalue", "text", "text", "fuse", "hex"]))
+    sp["pick"] = draw(st.integers(0, 10 ** 6))
+    sp["pick2"] = draw(st.integers(0, 10 ** 6))
+    return sp
+
+
+def check_strict(sp, ctx):
+    b = base_config(sp, ctx)
+    if b is None:
+        return Outcome(discard=True)
+    head, cfg, poslines = b
+    case0, r0 = run_cfg(head, cfg, poslines[:1])
+    if r0.crashed or r0.of("config")[0]["rc"] != 0 or r0.of("config")[0]["errbits"]:
+        return Outcome(False, msg="base configuration rejected: %s" % (r0.of("config")[:1]), sig="gen_invalid", case_text=case0)
+    lines = cfg.split("\n")
+    cl = classify(lines)
+    mut = sp["mut"]
+    k = None
+    what = ""
+    new = list(lines)
+
+    def choose(cands):
+        return cands[sp["pick"] % len(cands)] if cands else None
+    if mut == "misspell":
+        k = choose([i for i, c in enumerate(cl) if c[0] in ("kv", "open", "oneline", "bare")])
+        if k is None:
+            return Outcome(discard=True)
+        kw = cl[k][2]
+        new[k] = lines[k].replace(kw, kw + "Q", 1)
+        what = "keyword '%s' misspelled as '%sQ' in %s" % (kw, kw, "/".join(cl[k][5]) or "the global scope")
+    elif mut == "context":
+        cands = [i for i, c in enumerate(cl) if c[0] in ("kv", "bare") and block_kind(c[5])] + [i for i, c in enumerate(cl) if c[0] == "open" and c[4] == 0]
+        k = choose(cands)
+        if k is None:
+            return Outcome(discard=True)
+        kind = block_kind(cl[k][5]) if cl[k][0] != "open" else "top"
+        ins = WRONG_CONTEXT[kind][sp["pick2"] % len(WRONG_CONTEXT[kind])]
+        if kind == "bias" and cl[k][5][0].lower() == "histogramrestraint" and ins.split()[0] in ("width", "lowerBoundary"):
+            return Outcome(discard=True)
+        new.insert(k, cl[k][1] + ins)
+        what = "keyword '%s' (valid elsewhere) placed in %s" % (ins.split()[0], "/".join(cl[k][5]) or "the global scope")
+    elif mut == "brace_del":
+        k = choose([i for i, c in enumerate(cl) if c[0] == "close"])
+        if k is None:
+            return Outcome(discard=True)
+        del new[k]
+        what = "closing brace of line %d deleted" % (k + 1)
+    elif mut == "brace_add":
+        k = choose([i for i, c in enumerate(cl) if c[0] == "kv"])
+        if k is None:
+            return Outcome(discard=True)
+        new[k] = lines[k] + " {"
+        what = "opening brace appended to '%s'" % lines[k].strip()
+    elif mut == "brace_extra":
+        k = choose([i for i, c in enumerate(cl) if c[0] == "close"])
+        if k is None:
+            return Outcome(discard=True)
+        new.insert(k, "}")
+        what = "extra closing brace before line %d" % (k + 1)
+    elif mut == "novalue":
+        k = choose([i for i, c in enumerate(cl) if c[0] == "kv" and c[3] not in BOOL_T + BOOL_F])
+        if k is None:
+            return Outcome(discard=True)
+        new[k] = cl[k][1] + cl[k][2]
+        what = "keyword '%s' (value '%s') left without a value in %s" % (cl[k][2], cl[k][3], "/".join(cl[k][5]) or "the global scope")
+    else:
+        cands = [i for i, c in enumerate(cl) if c[0] == "kv" and re.fullmatch(r"(?:%s)(?:\s+(?:%s))*" % (NUM, NUM), c[3])]
+        k = choose(cands)
+        if k is None:
+            return Outcome(discard=True)
+        toks = cl[k][3].split()
+        j = sp["pick2"] % len(toks)
+        toks[j] = {"text": "abc", "fuse": toks[j] + "x", "hex": "0x10"}[mut]
+        new[k] = cl[k][1] + cl[k][2] + " " + " ".join(toks)
+        what = "number %d of '%s %s' replaced by '%s' in %s" % (j + 1, cl[k][2], cl[k][3], toks[j], "/".join(cl[k][5]) or "the global scope")
+    mcfg = "\n".join(new)
+    case, r = run_cfg(head, mcfg, poslines[:1])
+    if r.crashed:
+        return Outcome(False, msg="crash on a mutated configuration (%s): %s" % (what, r.stderr[-500:]), sig="strict_crash", case_text=case)
+    c = r.of("config")[0]
+    kwname = (cl[k][2] if k is not None and k < len(cl) and cl[k][2] else "")
+    if c["rc"] == 0 and c["errbits"] == 0:
+        ctxk = block_kind(cl[min(k, len(cl) - 1)][5]) or "nested"
+        return Outcome(False, msg="the configuration is accepted without any error although %s" % what,
+                       sig="strict:%s:%s:%s" % (mut, ctxk, kwname.lower() if mut in ("novalue", "text", "fuse", "hex", "misspell") else ""), case_text=case)
+    depth = cl[min(k, len(cl) - 1)][4]
+    return Outcome(True, nontrivial=depth >= 2, cls=(mut, "zoo" if "zoo" in sp else "rich", "d%d" % min(depth, 3)), strata=["strict", "mut:" + mut],
+                   case_text=case)
+
+
+# ------------------------------------------------------------------------------------------------------------
+# layout
+
+@st.composite
+def spec_layout(draw, tier):
+    sp = draw(base_spec(tier))
+    sp["ops"] = draw(st.lists(st.sampled_from(["case", "ws", "blank", "comment", "tcomment", "crlf", "split", "join", "bool"]), min_size=2, max_size=7, unique=True))
+    sp["bits"] = [draw(st.integers(0, 2 ** 30)) for _ in range(4)]
+    return sp
+
+
+def rnd_bits(seed):
+    x = seed or 1
+    while True:
+        x = (x * 1103515245 + 12345) & 0x7fffffff
+        yield x >> 8
+
+
+def rewrite(cfg, ops, bits):
+    lines = cfg.split("\n")
+    R = rnd_bits(bits[0])
+    applied = set()
+    # structural rewrites first (they work on the classified lines)
+    if "split" in ops or "join" in ops:
+        cl = classify(lines)
+        out = []
+        i = 0
+        while i < len(lines):
+            c = cl[i]
+            if "split" in ops and c[0] == "oneline" and next(R) % 2:
+                out += [c[1] + c[2] + " {", c[1] + "  " + c[3], c[1] + "}"]
+                applied.add("split")
+            elif ("join" in ops and c[0] == "open" and i + 2 < len(lines) and cl[i + 1][0] in ("kv", "bare") and cl[i + 2][0] == "close"
+                  and next(R) % 2):
+                out.append(c[1] + c[2] + " { " + lines[i + 1].strip() + " }")
+                i += 2
+                applied.add("join")
+            else:
+                out.append(lines[i])
+            i += 1
+        lines = out
+    cl = classify(lines)
+    out = []
+    for ln, c in zip(lines, cl):
+        kind, ind, kw, val = c[0], c[1], c[2], c[3]
+        if kind in ("kv", "bare", "open", "oneline") and kw:
+            k2 = kw
+            if "case" in ops:
+                m = next(R) % 4
+                k2 = [kw, kw.upper(), kw.lower(), "".join(ch.upper() if (next(R) % 2) else ch.lower() for ch in kw)][m]
+                if k2 != kw:
+                    applied.add("case")
+            if "bool" in ops and kind == "kv" and val in BOOL_T + BOOL_F:
+                grp = BOOL_T if val in BOOL_T else BOOL_F
+                v2 = grp[next(R) % 3]
+                if val in BOOL_T and next(R) % 4 == 0:
+                    v2 = None        # bare keyword = on
+                if v2 != val:
+                    applied.add("bool")
+                val = v2
+                if val is None:
+                    kind = "bare"
+            if "bool" in ops and kind == "bare" and val is None and c[0] == "bare" and False:
+                pass
+            sep = " "
+            if "ws" in ops:
+                ind = ["", " ", "\t", "      ", " \t "][next(R) % 5]
+                sep = [" ", "\t", "   ", " \t"][next(R) % 4]
+                applied.add("ws")
+            if kind == "kv":
+                ln = ind + k2 + sep + val
+            elif kind == "bare":
+                ln = ind + k2
+            elif kind == "open":
+                ln = ind + k2 + sep + "{"
+            else:
+                ln = ind + k2 + sep + "{" + sep + val + sep + "}"
+            if "ws" in ops and next(R) % 3 == 0:
+                ln += "  \t"[: 1 + next(R) % 3]
+            if "tcomment" in ops and kind in ("kv", "bare") and next(R) % 3 == 0:
+                ln += " # trailing comment { with } braces and 12 numbers"
+                applied.add("tcomment")
+        elif kind == "close" and "ws" in ops:
+            ln = ["", "  ", "\t"][next(R) % 3] + "}"
+        out.append(ln)
+        if "blank" in ops and next(R) % 4 == 0:
+            out.append(["", "   ", "\t"][next(R) % 3])
+            applied.add("blank")
+        if "comment" in ops and next(R) % 5 == 0:
+            out.append(["# a comment", "  # indented comment with keyword width 0.1", "#"][next(R) % 3])
+            applied.add("comment")
+    eol = "\n"
+    if "crlf" in ops:
+        eol = "\r\n"
+        applied.add("crlf")
+    return eol.join(out) + eol, applied
+
+
+def strip_rec(r):
+    return {k: v for k, v in r.items() if k != "errs"}
+
+
+def check_layout(sp, ctx):
+    b = base_config(sp, ctx)
+    if b is None:
+        return Outcome(discard=True)
+    head, cfg, poslines = b
+    case0, r0 = run_cfg(head, cfg + "\n", poslines, raw=True)
+    if r0.crashed or r0.of("config")[0]["rc"] != 0 or r0.of("config")[0]["errbits"]:
+        return Outcome(False, msg="base configuration rejected: %s" % (r0.of("config")[:1]), sig="gen_invalid", case_text=case0)
+    cfg2, applied = rewrite(cfg, sp["ops"], sp["bits"])
+    case, r = run_cfg(head, cfg2, poslines, raw=True)
+    if r.crashed:
+        return Outcome(False, msg="crash on a re-formatted configuration: %s" % r.stderr[-500:], sig="layout_crash", case_text=case)
+    tag = "[rewrites: %s]" % ",".join(sorted(applied))
+    c0, c1 = r0.of("config")[0], r.of("config")[0]
+    if (c1["rc"], c1["errbits"]) != (c0["rc"], c0["errbits"]):
+        why = "+".join(sorted(applied))
+        return Outcome(False, msg="a configuration that differs only in layout %s is rejected: %s\n--- rewritten configuration ---\n%s" % (
+            tag, c1["errs"], cfg2[:3000]), sig="layout_rejected:" + (why if len(applied) <= 2 else "multi"), case_text=case)
+    for x, y in zip(r0.of("step"), r.of("step")):
+        if strip_rec(x) != strip_rec(y):
+            diff = [k for k in x if k != "errs" and x[k] != y.get(k)]
+            return Outcome(False, msg="a configuration that differs only in layout %s gives different results at step %d in %s: %s vs %s\n"
+                           "--- rewritten configuration ---\n%s" % (tag, x["it"], diff, {k: x[k] for k in diff}, {k: y.get(k) for k in diff}, cfg2[:3000]),
+                           sig="layout_differs:" + ("+".join(sorted(applied)) if len(applied) <= 2 else "multi"), case_text=case)
+    forced = any(any(abs(c) > 0 for f in s["F"] for c in f) for s in r.of("step"))
+    return Outcome(True, nontrivial=len(applied) >= 3 and forced, cls=("zoo" if "zoo" in sp else "rich",) + tuple(sorted(applied)),
+                   strata=["layout"] + ["rw:" + a for a in applied], case_text=case)
+
+
+def view(spec):
+    d = {k: v for k, v in spec.items() if k not in ("rich", "zoo")}
+    d["base"] = "zoo" if "zoo" in spec else "rich"
+    return d
+
+
+REQUIRED_STRATA = {"all": ["strict:mut:misspell", "strict:mut:context", "strict:mut:brace_del", "strict:mut:brace_add", "strict:mut:brace_extra",
+                           "strict:mut:novalue", "strict:mut:text", "strict:mut:fuse", "strict:mut:hex"] +
+                   ["layout:rw:" + a for a in ("case", "ws", "blank", "comment", "tcomment", "crlf", "split", "join", "bool")]}
+
+PARTS = {
+    "totality": {"runner": runner_totality, "replay": fuzzrun.replay_fuzz},
+    "strict": {"strategy": spec_strict, "check": check_strict, "examples": {"quick": 1600, "thorough": 30000}, "sample": view},
+    "layout": {"strategy": spec_layout, "check": check_layout, "examples": {"quick": 1200, "thorough": 20000}, "sample": view},
+}
